@@ -240,3 +240,65 @@ contract(F, 'OscMessageDispatcher.__call__', props=('C18',),
          note='that the loop runs over a COPY of the registered list (so that a responder removing itself or others '
               'during delivery does not change who is called) is not visible in this model, where lists are values: '
               'it is checked by the bounded driver (dispatch histories with self-removal)')
+
+
+# ---- how a proxy's filters are stacked: OscMessageDispatcher.wrap_func ------------------------------------
+import itertools as _it
+
+
+def wf_construct(eng, f, args, kwargs, st, node):
+    if f.k == 'class' and f.py in ('OscArgsMatcher', 'OscFuncBothMessageMatcher', 'OscFuncAddrMessageMatcher',
+                                   'OscFuncRecvPortMessageMatcher'):
+        return [(st, V('obj', oid='new-' + f.py, extra={'cls': f.py, 'args': tuple(args)}))]
+    return None
+
+
+def wf_builtin(eng, name, args, kwargs, st, node):
+    # getattr(func_proxy, 'recv_port' | 'arg_template', None)
+    if name == 'getattr' and len(args) == 3 and args[0].k == 'ref' and args[1].k == 'str':
+        return eng.get_attr(args[0], args[1].py, st, node)
+    return None
+
+
+def wrap_post(src, port, tpl):
+    def post(c):
+        r = c.resultv
+        proxy = c.post.func_proxy
+
+        def is_field(v, name):
+            f = c.st.objs.get('func_proxy', {}).get(name)
+            return f is not None and v is f
+        # innermost: the template filter around the proxy's function, or the function itself
+        def inner_ok(v):
+            if tpl:
+                return (v.k == 'obj' and v.extra and v.extra.get('cls') == 'OscArgsMatcher' and len(v.extra['args']) == 2
+                        and is_field(v.extra['args'][0], 'arg_template') and is_field(v.extra['args'][1], 'func'))
+            return is_field(v, 'func')
+        if src and port:
+            ok = (r.k == 'obj' and r.extra and r.extra.get('cls') == 'OscFuncBothMessageMatcher' and len(r.extra['args']) == 3
+                  and is_field(r.extra['args'][0], 'src_id') and is_field(r.extra['args'][1], 'recv_port')
+                  and inner_ok(r.extra['args'][2]))
+        elif src:
+            ok = (r.k == 'obj' and r.extra and r.extra.get('cls') == 'OscFuncAddrMessageMatcher' and len(r.extra['args']) == 2
+                  and is_field(r.extra['args'][0], 'src_id') and inner_ok(r.extra['args'][1]))
+        elif port:
+            ok = (r.k == 'obj' and r.extra and r.extra.get('cls') == 'OscFuncRecvPortMessageMatcher' and len(r.extra['args']) == 2
+                  and is_field(r.extra['args'][0], 'recv_port') and inner_ok(r.extra['args'][1]))
+        else:
+            ok = inner_ok(r)
+        return z3.BoolVal(bool(ok))
+    return post
+
+
+for src, port, tpl in _it.product((False, True), repeat=3):
+    contract(F, 'OscMessageDispatcher.wrap_func', props=('C18',), params={'self': 'self', 'func_proxy': 'ref:Proxy'},
+             ensures=[('template-filter-innermost,then-the-sender/port-filter-the-proxy-asks-for', wrap_post(src, port, tpl))],
+             modifies=[], fields={'OscMessageDispatcher': {},
+                                  'Proxy': {'func': 'obj', 'src_id': 'obj' if src else 'none',
+                                            'recv_port': 'obj' if port else 'none',
+                                            'arg_template': 'obj' if tpl else 'none'}},
+             hooks={'construct': wf_construct, 'builtin_first': wf_builtin},
+             class_modules={'OscMessageDispatcher': F, 'Proxy': F}, native=False)
+    key = '%s::OscMessageDispatcher.wrap_func#src-%s-port-%s-template-%s' % (F, src, port, tpl)
+    REGISTRY[key] = REGISTRY.pop('%s::OscMessageDispatcher.wrap_func' % F)
+    REGISTRY[key].key = key
